@@ -1043,7 +1043,45 @@ fn structured(r: &mut Rng, family: Family) -> (Vec<DNode>, &'static str) {
     let leaf = |k: DK| DNode { k, kids: vec![] };
     let un = |k: DK, a: usize| DNode { k, kids: vec![a] };
     let bin = |k: DK, a: usize, b: usize| DNode { k, kids: vec![a, b] };
-    match r.below(7) {
+    match r.below(8) {
+        7 => {
+            // a leaf that gets a type with one sub-type referenced three or more times from a
+            // LATER sibling (finalisation then meets an incomplete bound several times)
+            let mut v = vec![leaf(match r.below(3) {
+                0 => DK::Witness,
+                1 => DK::Iden,
+                _ => DK::Fail(1),
+            })];
+            v.push(leaf(if r.bool() { DK::Iden } else { DK::Witness }));
+            let base = 1;
+            let mut top = base;
+            for _ in 0..r.urange(2, 5) {
+                let k = match r.below(5) {
+                    0 => DK::InjL,
+                    1 => DK::InjR,
+                    _ => DK::Pair,
+                };
+                if k.arity() == 1 {
+                    v.push(un(k, top));
+                } else if r.bool() {
+                    v.push(bin(k, top, base));
+                } else {
+                    v.push(bin(k, base, top));
+                }
+                top = v.len() - 1;
+            }
+            let b = match r.below(3) {
+                0 => DK::Case,
+                1 => DK::Comp,
+                _ => DK::Pair,
+            };
+            if r.bool() {
+                v.push(bin(b, 0, top));
+            } else {
+                v.push(bin(b, top, 0));
+            }
+            (v, "late-typed-leaf")
+        }
         0 => {
             // occurs-check shapes: op2(x, unary(x)) and friends over one shared iden
             let mut v = vec![leaf(DK::Iden)];
